@@ -20,7 +20,7 @@ PROP = "C03"
 
 UNIVERSE = [
     None, False, True, 0, 1, -1, 2, 3, 10, -7, 100, 0.5, -0.5, 1.5, 2.25, 2 ** 31, 2 ** 53, 2 ** 53 + 1, 2 ** 63, -(2 ** 63), 2 ** 64 + 1, 10 ** 30, float("nan"), float("inf"), float("-inf"),
-    "", "a", "b", "ab", "abc", "a,b", "A", " a ", "1", "10", "-1.5", "1e2", "0x1", "nan", "true", "null", "[1]", "{\"a\":1}", "é", "日本語", "\u0000", "a\nb", "\U0001F600", "%41", "YQ==",
+    "\u0080", "\u007f\u0080\u07ff\u0800\uffff\U00010000\U0010ffff", "", "a", "b", "ab", "abc", "a,b", "A", " a ", "1", "10", "-1.5", "1e2", "0x1", "nan", "true", "null", "[1]", "{\"a\":1}", "é", "日本語", "\u0000", "a\nb", "\U0001F600", "%41", "YQ==",
     [], [None], [1], [1, 2], [2, 1, 3], [1, [2]], [[1, 2], [3, 4]], ["a", "b"], ["a", 1, None], [[]], [{}], [0.5, 1], [1, 1, 2], [[1], [1]], ["b", "a"], [{"a": 1}, {"a": 2}], [[1, "a"]],
     ["a", [1], "b"], [[], "x"], ["a", {}, "b", "c"], list(range(20, 0, -1)), [{"k": i % 3, "i": i} for i in range(16)], [1, 2 ** 64 + 1, "a"], [2 ** 64 + 1, -(2 ** 70)], [0.5, 2 ** 70, None], ["a", 10 ** 20, True],
     {}, {"a": 1}, {"a": 1, "b": 2}, {"b": 2, "a": {"c": 3}}, {"a": [1, 2]}, {"a": None}, {"key": "k", "value": 1}, {"a": {"a": {"a": 1}}}, {"": 0}, {"start": 1, "end": 2},
